@@ -49,6 +49,27 @@ INFO = {
     "C19-m2": ("C19", "Rewind rebuilds the packet buffer without the skipper", "a skipper + a Rewind after at least one read"),
     "C20-m1": ("C20", "NextData walks the data buffer with a cursor that Rewind does not reset", "a payload yielding >= 3 DemuxerData and a Rewind after 2..n-1 of them were delivered"),
     "C20-m2": ("C20", "Rewind only dumps the lowest pending PID of the pool", ">= 2 PIDs with pending packets and a multiple of 16 packets of the affected PID read before the rewind"),
+    # round 2 (agents were told the round-1 changes and asked for multi-step / two-site / less obvious ones)
+    "C01-m3": ("C01", "automatic PID assignment skips used PIDs in a single pass over the stream list", "explicit PIDs on the next automatic PIDs added higher-first (0x101 then 0x100), then an automatic Add"),
+    "C01-m4": ("C01", "isPSIComplete: Len >= Offset became Offset < Len", "a PMT ending on the last/last-but-one byte of its packet, then a shorter PMT: the pending PMT is overwritten (2 PAT, 1 PMT)"),
+    "C02-m3": ("C02", "updateData registers only the programs of the first PAT section of a unit", "a PAT unit of >= 2 sections and a PMT announced only by a later section"),
+    "C02-m4": ("C02", "the is-this-a-PSI-PID test is cached when the per-PID accumulator is created", "a PMT PID packet arriving before the PAT announcing it is complete: PMT returned late"),
+    "C04-m3": ("C04", "WriteData recomputes payloadStart as payloadBytesWritten == 0", "adaptation field leaving exactly the PES header size in the first packet: two unit starts for one unit"),
+    "C04-m4": ("C04", "calcPacketAdaptationFieldLength skips the private data length byte when the data is empty", "private data flag set with empty data: adaptation_field_length one too small"),
+    "C06-m3": ("C06", "isSameAsPrevious also compares the adaptation fields by pointer", "duplicate of a packet that carries an adaptation field and is not the first of its unit"),
+    "C06-m4": ("C06", "end-of-stream drain: break instead of continue on a parse error", "loss inside the last multi-packet PSI section of a low PID with pending units on higher PIDs"),
+    "C09-m3": ("C09", "CRC only checked when section_syntax_indicator is set (or TOT)", "a corruption of exactly bit 7 of section byte 1 (alone or starting a burst)"),
+    "C09-m4": ("C09", "calcDescriptorVBIDataLength omits service id 0x07", "VBI data descriptor with service 0x07 and a line count other than 1"),
+    "C12-m3": ("C12", "writePESHeader applies the 16-bit test before adding the optional header length", "non-video PES with payload 65529..65535 and an optional header"),
+    "C12-m4": ("C12", "writePESHeader writes the optional header whatever the stream id", "stream id 0xBE/0xBF written with a non-nil optional header"),
+    "C13-m3": ("C13", "isPSIComplete breaks (complete) when a later section's length bytes have not arrived", "PAT/PMT unit of >= 2 sections where a later section's 3-byte header straddles a packet boundary"),
+    "C13-m4": ("C13", "parsePSISection no longer seeks to the section end", "a section type without CRC handling (TDT, BAT, ...) followed by a TOT/SDT in the same unit"),
+    "C14-m3": ("C14", "calcDescriptorVBIDataLength treats ids 1..7 as known (includes reserved 0x3)", "VBI data service id 0x3 with a line count other than 1"),
+    "C14-m4": ("C14", "descriptor loop length masked to 10 bits", "a descriptor loop >= 1024 bytes (EIT)"),
+    "C17-m3": ("C17", "retransmit counter reset before WriteTables is attempted", "an automatic emission that fails (PCR PID not yet valid), then a retry: PES written with no tables in front"),
+    "C17-m4": ("C17", "automatic PID assignment skips at most one used PID", ">= 2 explicit consecutive PIDs exactly at the next automatic PID, then an automatic Add"),
+    "C19-m3": ("C19", "parsePacket returns before consulting the skipper for packets without payload", "a payload-less packet selected by the predicate (NextPacket returns it, predicate not called)"),
+    "C19-m4": ("C19", "end-of-stream drain: break instead of continue on a parse error", "a failing PacketsParser on a unit flushed at end of stream with a pending unit on a higher PID"),
 }
 REVERTS = {
     "R01": "C12", "R02": "C14", "R03": "C14", "R04": "C18", "R05": "C17", "R06": "C04", "R07": "C11", "R08": "C05", "R09": "C06",
